@@ -20,8 +20,12 @@ def config? (j : Json) : Option Config := do
          outDir := b j "outDir" false, resume := b j "resume" false
          transitionsArity := n j "transitionsArity" 1, inspectArity := n j "inspectArity" 1
          terminateArity := n j "terminateArity" 1, targetScalar := b j "targetScalar" true
-         sanity := b j "sanity" true, typesOk := b j "typesOk" true, controllerNone := b j "controllerNone" false
-         nSamples := n j "nSamples" 1, fresh0 := b j "fresh0" true, dryRun := b j "dryRun" false
+         sanity := b j "sanity" true, typesOk := b j "typesOk" true
+         ctrlNoneAt := ((field? j "ctrlNoneAt").bind (listOf? getBool?)).getD []
+         nSamplesAt := (fNatList? j "nSamplesAt").getD []
+         freshAt := ((field? j "freshAt").bind (listOf? getBool?)).getD []
+         hasTransitions := b j "hasTransitions" false, hasInspect := b j "hasInspect" false
+         hasTerminate := b j "hasTerminate" false, dryRun := b j "dryRun" false
          terminateAt := fNat? j "terminateAt", returnFinal := b j "returnFinal" false
          prevOutDir := b j "prevOutDir" false }
 
@@ -37,6 +41,8 @@ def handle (j : Json) : Json :=
     | .error e => jObj [("error", Json.str (errName e)), ("valid", Json.bool (valid c))]
     | .ok s => jObj [("iterations", jNat s.iterations), ("nResult", jNat s.nResult), ("arity", jNat s.arity),
                      ("writesFiles", Json.bool s.writesFiles), ("stackDelta", jInt s.stackDelta),
+                     ("seedsRepeat", jList Json.bool s.seedsRepeat), ("transitionCalls", jNats s.transitionCalls),
+                     ("inspectCalls", jNats s.inspectCalls), ("terminateCalls", jNats s.terminateCalls),
                      ("valid", Json.bool (valid c))]
   | _, _, _ => jErr "bad-op"
 
